@@ -17,10 +17,10 @@ from tie.framework import TieBroken, g_N, g_bool, g_list, g_opt, run_impl_parall
 PROP = "C03"
 IMPORTS = ("From JV Require Import Lib.Base Model.C03ExnFlow Spec.C03ChannelSpec Gen.C03ExnIR Model.C03Instance Corr.C03Judge.\n"
            "Open Scope N_scope.")
-RULE = ("one case = (parser shape, exit_on_error, parse method, input[, up to two earlier calls on the same parser object]). Seven parser shapes (basic typed options incl. nested "
+RULE = ("one case = (parser shape, exit_on_error, parse method, input[, up to two earlier calls on the same parser object]). Eight parser shapes (basic typed options incl. nested "
         "keys/Any/Union/Enum; subclass types incl. Type[]/Callable/List/Dict of classes; dataclass types incl. List/Dict/nested; "
         "required subcommands with their own --cfg; plain argparse type= callables/choices/nargs/FileType; Path types + "
-        "ActionParser; the basic shape again with parser_mode='json'), optionally with a default config file. Inputs from a grammar: option names known / unknown / malformed "
+        "ActionParser; the basic shape again with parser_mode='json'; the types jsonargparse registers itself: Decimal, timedelta, datetime, complex, UUID, Path, Pattern, bytes, range), sub-command parsers and the ActionParser parser built with the root's exit_on_error, with the constructor default or with the opposite value, optionally with a default config file. Inputs from a grammar: option names known / unknown / malformed "
         "(dotted, empty segments, '+' suffix, sub-keys of subclass/dict/dataclass arguments, .help, class_path/init_args/"
         "dict_kwargs) x values well- and ill-formed for the declared type (broken JSON/YAML, anchors and self-referential "
         "aliases, tags, NUL bytes, non-importable / non-class / malformed import paths, wrong-typed class_path/init_args, "
@@ -51,7 +51,7 @@ ASSUMPTIONS = [
 EXHAUSTIVE = {"quick": False, "thorough": False}
 FINDING_CLASSES = dict(T.FINDING_KEYS)
 META = {
-    "level_text": "proof (partial): analysis soundness for all IR programs + single-channel theorem over all executions of the regenerated IR, guarded by 23 finding site classes; implicit runtime exceptions and termination by correspondence only",
+    "level_text": "proof (partial): analysis soundness for all IR programs + single-channel theorem over all executions of the regenerated IR, guarded by 25 finding site classes; implicit runtime exceptions and termination by correspondence only",
     "level_note": (
         "Proved in Coq: (1) C03_analysis_sound — for every exception-flow IR program, table passing the executable post-fixpoint "
         "check, mode and function, every raise site that an execution of the nondeterministic big-step semantics lets escape is in "
@@ -70,7 +70,7 @@ META = {
 }
 
 ENTRIES = ["parse_args", "parse_object", "parse_string", "parse_env", "parse_path"]
-SHAPES = ["basic", "classes", "dataclass", "subcommands", "plain", "paths", "json"]
+SHAPES = ["basic", "classes", "dataclass", "subcommands", "plain", "paths", "json", "registered", "subcommands"]
 
 _meta_cache = {}
 
@@ -127,6 +127,7 @@ def validate_implicit_sites():
 # generation
 # ---------------------------------------------------------------------------------------------------------------------
 OPTS = {
+    "registered": ["dec", "td", "dt", "cx", "uu", "pp", "rx", "by", "rg", "od", "ltd", "ddec", "a", "cfg"],
     "json": ["a", "s", "f", "b", "l", "d", "n.x", "n.y.z", "o", "any", "u", "e", "pos", "cfg"],
     "basic": ["a", "s", "f", "b", "l", "d", "n.x", "n.y.z", "o", "any", "u", "e", "pos", "cfg"],
     "classes": ["cal", "ocal", "t", "c", "lcal", "dcal", "a", "cfg"],
@@ -147,7 +148,8 @@ ODD_NUMBERS = ["\u00b2", "-\u00b3", "\u2460", "\u2082\u2083", "1\u00b2", "\u0663
 SCALARS = ODD_NUMBERS[:8] + ["1", "0", "-3", "2.5", "x", "", "null", "true", "1e999", "1_0", "0x1f", "é", "a b", "~", "[]", "{}", "ok", "red", "y", "-", "--", "=", "1e3"]
 BROKEN = ["[1,", "{a: ", "\"", "a: b: c", "!!python/object:os.system x", "&x [*x]", "a: &x [*x]", "*undefined", "- &a [*a]", "{a: &x {b: *x}}",
           "? [a]\n: 1", "a\x00b", "{1: 2}", "[[[[[[[[[[1]]]]]]]]]]", "!!binary x", "@", "`", "%YAML 9.9", "---\n- 1\n---\n- 2", "\t- 1", "{a: 1, a: 2}",
-          "<<: *x", "!!set {a}", "0o9", ": :", "[1, 2", "'"]
+          "<<: *x", "!!set {a}", "!!timestamp abc", "!!timestamp 2020-01-01", "!!float x", "!!bool x", "!!null x", "!!omap [a]", "!!pairs x",
+          "!!str [a]", "!!int 1_", "!!merge x", "!!seq {a: 1}", "!!map [1]", "[!!timestamp x]", "{k: !!timestamp 1}", "0o9", ": :", "[1, 2", "'"]
 PATHS = ["-", "good.yaml", "bad.yaml", "bin.yaml", "rec.yaml", "empty.yaml", "d", "missing.yaml", "/proc/self/mem", "", ".", "a\x00b", "d/", "good.yaml/x",
          "case.yaml", "/dev/null", "x" * 300]
 STRUCT = ["[1, 2]", "[1, x]", "{k: 1}", "{k: x}", "{class_path: calendar.TextCalendar}", "{class_path: 5}", "{class_path: calendar.Calendar, init_args: 3}",
@@ -215,8 +217,10 @@ def gen_deep(rng):
 
 def gen_value(rng):
     r = rng.random()
-    if r < 0.22:
+    if r < 0.19:
         return rng.choice(SCALARS)
+    if r < 0.25:
+        return rng.choice(REGVALS)
     if r < 0.38:
         return rng.choice(BROKEN)
     if r < 0.53:
@@ -230,6 +234,10 @@ def gen_value(rng):
     return rng.choice(STRUCT)
 
 
+# values for the types jsonargparse registers itself (Decimal, timedelta, datetime, complex, UUID, Path, Pattern, bytes, range)
+REGVALS = ["abc", "1.5", "NaN", "1e9999999999", "[1]", "1:02:03", "3 days, 1:02:03", "99999999999 days, 0:0:0", "-99999999999 days, 0:0:0", "1 day, 25:00:00",
+           "2020-01-02T03:04:05", "2020-13-45", "99999-01-01T00:00:00", "1+2j", "1e999j", "(", "12345678-1234-5678-1234-567812345678", "x-y", "aGk=", "////", "@@",
+           "range(3)", "range(1, 2, 0)", "range(1," + "9" * 4400 + ")", "[[[", "a*", "(?P<n", "[\"99999999999 days, 0:0:0\"]", "{k: abc}", "{k: 1.5}", "[x]", "-0", "1_0.0", "Infinity", "sNaN"]
 SUBCMD_VALUES = ["fit", "test", "zzz", "", "5", "null", "[fit]", "{fit: 1}", "true", "Fit"]
 SUBCMD_BODIES = ["5", "x", "[1]", "null", "{}", "{p: 1}", "{p: x}", "{q: [a]}", "{zz: 1}", "[{p: 1}]", "{p: {k: 1}}", "fit", "{cfg: case.yaml}"]
 
@@ -362,6 +370,11 @@ def gen_env(rng, shape):
     for _ in range(rng.choice([1, 1, 2, 3])):
         o = rng.choice(OPTS[shape])
         name = "APP_" + o.replace(".", "__").upper()
+        if shape == "subcommands" and "." in o and o.split(".")[0] in ("fit", "test"):
+            # options of a sub-command parser: its env_prefix is "<root prefix>_<name>_"
+            name = "APP_" + o.split(".", 1)[0].upper() + "_" + o.split(".", 1)[1].replace(".", "__").upper()
+            if rng.random() < 0.8:
+                env["APP_SUBCOMMAND"] = o.split(".")[0] if rng.random() < 0.85 else rng.choice(SUBCMD_VALUES)
         if rng.random() < 0.1:
             name = rng.choice(["APP_ZZ", "APP_", "APP_A__", name + "__X", name.lower(), "APP_CFG"])
         env[name] = value_for(rng, shape, "cfg" if name == "APP_CFG" else o)
@@ -449,6 +462,19 @@ def directed():
     add("json", "parse_path", "case.yaml", files={"case.yaml": '{"a": %s}' % ("9" * 4400)})
     add("json", "parse_string", '{"a": [')
     add("json", "parse_args", ['--l=[1, "x"]'])
+    for x in (False, True):                                                       # nested parsers built with another exit_on_error
+        for nx in ("default", "opposite"):
+            for entry, inp in (("parse_args", ["fit", "--p=x"]), ("parse_args", ["fit", "--zz"]), ("parse_env", {"APP_SUBCOMMAND": "fit", "APP_FIT_P": "x"}),
+                               ("parse_object", {"subcommand": "fit", "fit": {"p": "x"}}), ("parse_string", "subcommand: fit\nfit: {p: x}\n")):
+                D.append({"shape": "subcommands", "x": x, "entry": entry, "input": inp, "nested_x": nx})
+            for entry, inp in (("parse_args", ["--inner.v=x"]), ("parse_args", ["--inner={v: x}"]), ("parse_env", {"APP_INNER__V": "x"}), ("parse_string", "inner: {v: x}\n")):
+                D.append({"shape": "paths", "x": x, "entry": entry, "input": inp, "nested_x": nx})
+    add("registered", "parse_args", ["--dec=abc"])                                 # registered-type-deserializer
+    add("registered", "parse_args", ["--td=99999999999 days, 0:0:0"])
+    add("registered", "parse_string", "ltd: [\"99999999999 days, 0:0:0\"]\n")
+    add("registered", "parse_args", ["--td=x"])
+    add("basic", "parse_args", ["--any=!!timestamp abc"])                          # yaml-timestamp-tag
+    add("basic", "parse_string", "!!timestamp abc")
     # the channels themselves
     add("basic", "parse_args", ["--a=x"])
     add("basic", "parse_args", ["--zz=1"])
@@ -490,6 +516,9 @@ def gen_case(rng, shape=None, entry=None, history=True):
         c["input"] = rng.choice(PATHS + ["case.yaml"] * 6)
     if rng.random() < 0.5 or "case.yaml" in json.dumps(c["input"]):
         c["files"] = {"case.yaml": gen_text(rng, shape)}
+    if shape in ("subcommands", "paths"):
+        # parsers nested below the root are not necessarily built with the root's exit_on_error
+        c["nested_x"] = rng.choice(["same", "default", "opposite"])
     if rng.random() < 0.12:
         c["stdin"] = "none"   # a process started with file descriptor 0 closed: sys.stdin is None
     if history and rng.random() < 0.22:
@@ -711,7 +740,7 @@ def term(case, obs):
 def nontrivial_key(case, obs):
     if obs["k"] == "ret":
         return None
-    return json.dumps([case["shape"], case["x"], case["entry"], case["input"], case.get("dcf"), case.get("files"), case.get("stdin"), case.get("history")], sort_keys=True)
+    return json.dumps([case["shape"], case["x"], case["entry"], case["input"], case.get("dcf"), case.get("files"), case.get("stdin"), case.get("history"), case.get("nested_x")], sort_keys=True)
 
 
 def category(case, obs):
@@ -730,6 +759,8 @@ def describe(case, obs):
     d = {"parser_shape": case["shape"], "exit_on_error": case["x"], "method": case["entry"], "input": case["input"]}
     if case.get("stdin") == "none":
         d["stdin"] = "closed (sys.stdin is None)"
+    if case.get("nested_x", "same") != "same":
+        d["nested_parsers_exit_on_error"] = {"default": "constructor default (True)", "opposite": not case["x"]}[case["nested_x"]]
     if case.get("history"):
         d["earlier_calls_on_the_same_parser"] = case["history"]
     if case.get("dcf") is not None:
